@@ -279,7 +279,9 @@ def _lookup_core(chk, ctx) -> None:
         collect = bool(m.calls(rr.node, 'indices.add(entry.index)')) and bool(m.fors(rr.node, 'self.__entries.values()')) \
             or bool(m.exprs(rr.node, '{entry.index for entry in self.__entries.values()}'))
         table = bool(m.exprs(rr.node, 'dict(zip(sorted(indices), range(len(indices))))')) \
-            or (bool(m.exprs(rr.node, 'dict(zip(sorted_indices, range(len(indices))))')) and bool(m.assigns(rr.node, 'sorted(indices)')))
+            or (bool(m.exprs(rr.node, 'dict(zip(sorted_indices, range(len(indices))))')) and bool(m.assigns(rr.node, 'sorted(indices)'))) \
+            or bool(m.exprs(rr.node, '{index: position for position, index in enumerate(sorted(indices))}')) \
+            or bool(m.exprs(rr.node, 'dict(map(reversed, enumerate(sorted(indices))))'))
         rewrite = False
         for loop in m.fors(rr.node, 'self.__entries.items()'):
             for st in loop.body:
